@@ -9,8 +9,8 @@ CHECKS = {
     note="Trusted: clang 14 front end, gmgir lowering, idiom table (std::copy ranges, element loops, make_unique<T[]>, std::move), value semantics of std::unique_ptr/std::vector. Not decided: observational equality beyond state transfer.",
     ref="DESIGN.md section 4 / C15"),
  "C10": dict(
-    level="other", technique="static analysis: value-flow (Herbrand-term abstract interpretation) of the six cycle functions over the clang AST, compared with the correction-scheme recursion",
-    text="Each cycle function (and the level_interpolation wrappers it calls) is interpreted from /repo's source over exact linear combinations of operator symbols, for every cycle type, with/without extrapolation, 2..5 levels and all pre/post smoothing counts 0..2; the term left in the iterate must equal the recursion of the property (for L=2 without smoothing literally u + P Solve R (f - A u), resp. its extrapolated form). Work vectors start as STALE leaves so scratch dependence, aliasing, wrong-level operands or a clobbered right-hand side are visible. No test calls a cycle; this covers every buffer rotation the recursion can produce.",
+    level="other", technique="static analysis: value-flow (Herbrand-term abstract interpretation) of the six cycle functions over the clang AST, compared with the correction-scheme recursion; structural forwarding/argument-role rules over the resolved call sites",
+    text="Each cycle function (and the level_interpolation wrappers it calls) is interpreted from /repo's source over exact linear combinations of operator symbols, for every cycle type, with/without extrapolation, 2..5 levels and all pre/post smoothing counts 0..2; the term left in the iterate must equal the recursion of the property (for L=2 without smoothing literally u + P Solve R (f - A u), resp. its extrapolated form). Work vectors start as STALE leaves so scratch dependence, aliasing, wrong-level operands or a clobbered right-hand side are visible. No test calls a cycle; this covers every buffer rotation the recursion can produce. The glue to C03-C08 is checked structurally: Level's wrappers forward their own parameters in order to the operator member, Level's factories build the class of the selected strategy with role-correct arguments, and no call site of the library passes two type-compatible arguments swapped with respect to the callee's parameter names.",
     note="Trusted: clang front end, gmgir lowering, the operator in/out table (cross-checked against const-ness), linearity of the operator symbols. Not decided: numerical accuracy; the meaning of each operator symbol is the subject of C03-C08.",
     ref="DESIGN.md section 4 / C10, 3.2"),
  "C09": dict(
